@@ -233,6 +233,14 @@ def word_worker(args):
         upword.COMPRESS = cfg["seed"] % 4 == 1 and not cfg.get("gram")  # classes stored compressed, with a colliding hash
         upword.LOOSE_EMPTY = cfg["seed"] % 2 == 0  # rules that do not declare possibly-empty children but have empty ones: children kept
         root, pack, db = specrun.build(cfg)
+        if cfg["seed"] % 5 == 2 and not cfg.get("gram"):
+            # a verification strategy whose rules have a child (the class it depends on)
+            from comb_spec_searcher import StrategyPack
+
+            pack = StrategyPack(initial_strats=list(pack.initial_strats), inferral_strats=list(pack.inferral_strats),
+                                expansion_strats=[list(ss) for ss in pack.expansion_strats],
+                                ver_strats=list(pack.ver_strats) + [upword.DepVer([random.Random(cfg["seed"]).choice(["a", "b", "ab", "ba", "aa"])])],
+                                name=pack.name, symmetries=list(pack.symmetries), iterative=pack.iterative)
         rec = Recorder(pack)
         raw = []
         kw = {"reverse": cfg["reverse"]} if cfg["db"] == "RuleDBForest" else {}
@@ -295,8 +303,37 @@ def word_worker(args):
         upword.LOOSE_EMPTY = False
 
 
+def labels_at_scale():
+    """equal classes get the same label also in a database that already holds thousands of classes stored compressed"""
+    import itertools
+
+    import upword
+    from comb_spec_searcher.class_db import ClassDB
+
+    problems = []
+    upword.COMPRESS = True
+    try:
+        db = ClassDB(upword.PW)
+        words = [""] + ["".join(t) for k in range(1, 12) for t in itertools.product("ab", repeat=k)][:2300]
+        classes = [upword.PW(w, ["bbbbbbbbbbbbb"], "ab") for w in words]
+        first = [db.get_label(c) for c in classes]
+        if first != list(range(len(classes))):
+            problems.append(("labels-not-dense-in-order-of-first-appearance", f"{first[:5]}..."))
+        for i in (0, 1, 7, 341, 2047, 2048, len(classes) - 1):
+            again = db.get_label(upword.PW(words[i], ["bbbbbbbbbbbbb"], "ab"))
+            if again != i:
+                problems.append(("equal-classes-get-different-labels", f"class {i} of {len(classes)} is labelled {again} when asked again"))
+                break
+    finally:
+        upword.COMPRESS = False
+    return problems
+
+
 def run(tier, seed, factor=1):
     res = common.Result("C04")
+    for sig, d in labels_at_scale():
+        res.fail(sig, {"labels_at_scale": True}, d)
+    res.dist["label bijection on a database of 2300 compressed classes"] += 1
     res.rule = ("(A/B) random table universes (2-9 classes; union/product tables, two inferral strategies, a symmetry, a verification table, "
                 "a factory yielding strategies and foreign-parent rules) x random packs (0-2 initial, 0-2 inferral, 1-3 expansion sets, "
                 "symmetry or not, iterative or not, expand_verified) x {RuleDB, RuleDBForgetStrategy with random time-slicing, RuleDBForest "
@@ -346,6 +383,9 @@ def search(tier, seed):
 
 def replay(case):
     inp = case["input"]
+    if inp.get("labels_at_scale"):
+        pr = labels_at_scale()
+        return {"signature": pr[0][0], "input": inp, "detail": pr[0][1]} if pr else None
     if "alpha" in inp:
         o = word_worker(inp)
         return {"signature": o["problems"][0][0], "input": inp, "detail": o["problems"][0][1]} if o["problems"] else None
